@@ -1,13 +1,19 @@
 #!/bin/bash
-# Runs every seeded change against the quick check of the property it targets, on a scratch checkout
-# (VERIF_REPO, e.g. $VP_RUN_REPO). One line per seed: CAUGHT / MISSED / INCONCLUSIVE. Regression guard for the checks:
-# after the workloads changed, every stored change must still be caught.
+# Runs every seeded change against the quick check of the property it targets (and, when that one does not report it,
+# against the other checks its meta.json lists under caught_by_quick_checks), on a scratch checkout (VERIF_REPO, e.g.
+# $VP_RUN_REPO). One line per seed: CAUGHT <by> / MISSED / INCONCLUSIVE. Regression guard for the checks: after the
+# workloads changed, every stored change must still be caught.
 BASE=$(cd "$(dirname "$0")" && pwd)
 REPO=${VERIF_REPO:?set VERIF_REPO to a scratch checkout}
 for d in "$BASE"/seeded/S*/; do
-  s=$(basename "$d"); p=$(echo "$s" | sed 's/^S[0-9]*-\(C[0-9]*\)-.*/\1/')
+  s=$(basename "$d"); own=$(echo "$s" | sed 's/^S[0-9]*-\(C[0-9]*\)-.*/\1/')
+  others=$(python3 -c "import json,sys;m=json.load(open(sys.argv[1]));print(' '.join(x for x in m.get('caught_by_quick_checks',[]) if x!=sys.argv[2]))" "$d/meta.json" $own)
   git -C "$REPO" checkout -q -- . ; git -C "$REPO" apply "$d/patch.diff" || { echo "$s PATCH-FAILED"; continue; }
-  "$BASE/run.sh" $p quick > "$BASE/.work/own_$s.log" 2>&1; rc=$?
-  case $rc in 1) echo "$s CAUGHT";; 0) echo "$s MISSED";; *) echo "$s INCONCLUSIVE rc=$rc $(grep -m1 INCONCLUSIVE "$BASE/.work/own_$s.log" | cut -c1-150)";; esac
+  res=MISSED
+  for p in $own $others; do
+    "$BASE/run.sh" $p quick > "$BASE/.work/own_$s.log" 2>&1; rc=$?
+    case $rc in 1) res="CAUGHT $p"; break;; 0) ;; *) res="INCONCLUSIVE $p rc=$rc $(grep -m1 INCONCLUSIVE "$BASE/.work/own_$s.log" | cut -c1-150)";; esac
+  done
+  echo "$s $res"
   git -C "$REPO" checkout -q -- .
 done
